@@ -119,7 +119,15 @@ SPEC = dict(
                 "sliding-expiration re-insert there defeats the single connection, and the harness has a schedule point on the hit path (v.hit) and "
                 "enumerates warm caches past half their TTL so that such a write is reached on the real code. C21_authn_iff (authenticates only if issued, enabled, not expired; sequential and concurrent) is the checked full theorem since "
                 "/repo b9131b8: C21_authn_applies ties the expires_at re-check of the cache-hit path to the source, C21_authn_iff_current instantiates it; "
-                "C21_authn_expiry_witness is the pre-fix counterexample, C21_authn_iff_partial the configuration-independent bound. The LTS is tied to the "
+                "C21_authn_expiry_witness is the pre-fix counterexample, C21_authn_iff_partial the configuration-independent bound. C21_authn_after_return(_current): once ANY mutator (revoke/delete/rotate/expires_at update) returned, a verification starting afterwards is "
+                "justified by the post-mutation row (enabled, hash, not expired at its clock) — rests on C21_invalidation_sites (every mutator incl. "
+                "UpdateToken invalidates unconditionally; factgen counts only a top-level InvalidateCache after the SQL). Cluster-apply LOG REPLAY "
+                "(restart re-applies the Raft log against the persistent row) is modelled at function level (Model/C21Replay): C21_replay_create_fact "
+                "(identical replayed ApplyCreateToken returns before any write, no upsert) => C21_replay_create_inert and C21_replay_revoked_stays (a "
+                "revoked token is rejected after every replayed entry of any delete-free log); C21_replay_witness is the upsert counterexample; "
+                "C21_replay_window_witness records what replay does even on the current source (deleted row re-inserted until the delete is replayed, "
+                "intermediate rotation value / earlier expiry until the later entry is replayed) — observed on the real Apply*Token too, reported as tags "
+                "`replay-window:*` (stats.extra.replay_windows_observed), NOT as failures. The LTS is tied to the "
                 "code by forced schedules: every interleaving of <=3 verifiers x 1 mutator over 6+1 injected schedule points (direct and cluster-apply "
                 "mode; complete in thorough except RotateToken-direct with 3 verifiers, a DFS prefix) is executed on the real AuthManager/SQLite and "
                 "replayed through the LTS, including the steps observed BLOCKED on the pooled connection."),
